@@ -26,7 +26,9 @@ def check(prop, tier):
         try:
             out, _ = p.communicate(timeout=secs * 4 + 120)
         except subprocess.TimeoutExpired:
-            p.kill()
+            for _, _, q in procs:
+                if q.poll() is None:
+                    q.kill()
             raise Inconclusive("race workload (seed %d) did not finish: the node may be wedged (see C08)" % s)
         err = open(os.path.join(d, "race.err")).read()
         if "DATA RACE" not in err and p.returncode not in (0, 66):
